@@ -18,8 +18,29 @@ R2 File entity <-> files_map: every dict literal with `"@type": "File"` built in
    each element (`_rename_parts`).
 R3 archive population: `create_archive` iterates `self.files_map.items()` and writes each entry as
    `archive.write(<key: source path>, <value: archive name>)`.
+R4 one hash object per checksummed file: every call of a function that feeds a *caller supplied* hash object
+   (`_file_checksum`: a parameter with `.update(...)` and `.hexdigest()`; enumerated by shape, callers through the call
+   index) passes an object created for that call -- a `hashlib.*(...)` constructor call in the argument, or a local whose
+   every reaching definition is such a constructor, with no path from the call back to itself that avoids the definition
+   (hoisted out of a loop / comprehension) and no other feeding use (`X.update`, X as another call's argument) of the same
+   object.  hashlib objects accumulate: a shared one makes the recorded sha1 / @id / archive name of every file after the
+   first the digest of a concatenation (seeded change C34-1).
+R5 "no value" is decided by `None`, never by truthiness: in every concrete `get_property_value` (class table) -- and every
+   other method of these classes that returns None on some path -- a branch point whose two sides differ in whether they
+   can end in `return None` / a returned entity must not test the truthiness of the token's plain value
+   (`get_token_value(...)`, `<Token parameter>.value`, or a local / walrus bound to one): 0, false, '' and [] are values
+   of the run and need an entity (seeded change C34-2).  Comparisons (`is None`, `!=`), isinstance(...) and truthiness of
+   other things are not restricted.
+R6 per-run work happens for every exported run:
+   a. every call `self.<hook>(...)` of a method with a parameter annotated `Workflow` (`add_initial_inputs`; enumerated from
+      the class table) is lexically inside a loop over `self.workflows`, gets that loop's element as the workflow and
+      arguments that depend on the loop's targets, and lies on every path through the loop body; an abstract hook is
+      called at least once;
+   b. in all methods of these classes, the targets of a `for` loop without `break` are not read after the loop (a
+      statement that reads them there runs once, for the last element only) (seeded change C34-3).
 
-Undecided: presence/size/checksum of the files actually written, JSON-LD validity, completeness of inputs/outputs;
+Undecided: presence/size/checksum of the files actually written, JSON-LD validity, completeness of inputs/outputs beyond
+R5/R6 (that every port of every step is visited, that the database returns every token);
 entities typed through a *list* (`["SoftwareApplication", "File"]`, workflow templates) are outside R2 (their `@id`
 may carry a `#fragment` while the archive name is the file's basename) -- printed as an observation.
 """
@@ -30,7 +51,7 @@ import ast
 
 from ..model import enclosing_stmt, parent, unparse
 from ..selftest import V
-from ._util_G import assign_nodes, const_str, expand, impure, is_call_to, norm
+from ._util_G import assign_nodes, const_str, expand, impure, is_call_to, norm, reaching
 
 MOD = "streamflow.provenance.run_crate"
 FILE = "streamflow/provenance/run_crate.py"
@@ -41,10 +62,15 @@ META = {
     "explanation": (
         "Class-table enumeration of every store into self.graph / self.files_map in RunCrateProvenanceManager and its "
         "subclasses; def-use + CFG (reaching `@id` definitions, rebinding between definition and store, dominance / "
-        "must-pass-through for the files_map pairing); shape of the exported `@graph` and of the archive-writing loop."
+        "must-pass-through for the files_map pairing); shape of the exported `@graph` and of the archive-writing loop; "
+        "freshness of the hash object handed to the file checksum helper (reaching definitions + CFG cycles); operand structure of the "
+        "tests that decide between a value entity and `return None`; placement of per-workflow calls relative to the loop over self.workflows."
     ),
-    "undecided": "presence, size and checksum of files in the archive; JSON-LD validity; that every input/output value is represented",
-    "assumptions": ["a dict keyed by @id has unique @id values", "uuid4()/random/time based expressions differ per evaluation"],
+    "undecided": "presence, size and checksum of files in the archive; JSON-LD validity; that every input/output value is represented "
+                 "(only: falsy values are not dropped by get_property_value, per-run hooks run for every exported workflow)",
+    "assumptions": ["a dict keyed by @id has unique @id values", "uuid4()/random/time based expressions differ per evaluation",
+                    "hashlib objects are cumulative; a function with `p.update(..)` + `p.hexdigest()` on a parameter p feeds the caller's object",
+                    "_file_checksum-like helpers of run_crate are only called with hash objects visible at the call site"],
 }
 
 
@@ -211,7 +237,9 @@ def r1(ctx):
            message=f"\"@graph\" is `{unparse(gexpr)[:80]}`: not the complete list of the entities filed in self.graph")
     hs = enclosing_stmt(holders[0])
     mvar = hs.targets[0].id if isinstance(hs, ast.Assign) and isinstance(hs.targets[0], ast.Name) and hs.value is holders[0] else None
-    dumps = [c for c in f.calls() if is_call_to(p, f, c, "json.dumps", "json.dump")]
+    # (only calls spelled `dumps(...)` / `x.dump(...)` / a bare name are resolved: resolving every call of create_archive costs ~1 s)
+    dumps = [c for c in f.calls() if (isinstance(c.func, ast.Name) or (isinstance(c.func, ast.Attribute) and c.func.attr in ("dumps", "dump")))
+             and is_call_to(p, f, c, "json.dumps", "json.dump")]
     dumped = any(c.args and ((isinstance(c.args[0], ast.Name) and c.args[0].id == mvar) or c.args[0] is holders[0]) for c in dumps)
     named = any(isinstance(c.func, ast.Attribute) and c.func.attr in ("open", "writestr") and c.args and const_str(c.args[0]) == "ro-crate-metadata.json" for c in f.calls())
     ctx.ob("R1", "the metadata object holding @graph is what is serialised into ro-crate-metadata.json", dumped and named, func=f, node=hs,
@@ -349,11 +377,413 @@ def r3(ctx):
                message=f"files are written with {[unparse(c)[:60] for c in writes] or 'no archive.write call'}: expected write({src}, {dst})")
 
 
-RULES = [("R1", r1), ("R2", r2), ("R3", r3)]
-FLOORS = {"R1": 30, "R2": 5, "R3": 1}
+
+# --------------------------------------------------------------------------- R4
+
+
+_COMP = (ast.ListComp, ast.SetComp, ast.DictComp, ast.GeneratorExp, ast.Lambda)
+
+
+def _accumulators(p):
+    """Functions of the provenance module that feed a *caller supplied* hash object: a parameter P with
+    `P.update(...)` and `P.hexdigest()/digest()` in the body -> [(Func, positional index, name)]."""
+    out = []
+    for f in p.all_funcs():
+        if f.module.name != MOD:
+            continue
+        params = [a for a in f.params if a not in ("self", "cls")]
+        used: dict[str, set[str]] = {}
+        for c in f.calls():
+            if isinstance(c.func, ast.Attribute) and isinstance(c.func.value, ast.Name) and c.func.value.id in params:
+                used.setdefault(c.func.value.id, set()).add(c.func.attr)
+        for nm, attrs in used.items():
+            if "update" in attrs and attrs & {"hexdigest", "digest"}:
+                out.append((f, params.index(nm), nm))
+    return out
+
+
+def _is_hash_ctor(p, f, e) -> bool:
+    """`hashlib.new(...)`, `hashlib.sha1(...)`, ... or `<hash>.copy()`: a hash object nobody else has fed yet."""
+    if not isinstance(e, ast.Call):
+        return False
+    if isinstance(e.func, ast.Attribute) and e.func.attr == "copy" and not e.args:
+        return True
+    return any(q.startswith("hashlib.") for q in p.resolve_call(f, e, fanout=False))
+
+
+def _bound_values(node, name: str):
+    """Expressions bound to local `name` by CFG node `node` (None element = bound to something that is not an expression
+    of its own: loop / with / unpacking target)."""
+    a = node.ast
+    out = []
+    if node.kind == "stmt" and isinstance(a, (ast.Assign, ast.AnnAssign, ast.AugAssign)):
+        tg = a.targets if isinstance(a, ast.Assign) else [a.target]
+        for t in tg:
+            if isinstance(t, ast.Name) and t.id == name:
+                out.append(a.value if isinstance(a, (ast.Assign, ast.AnnAssign)) else None)
+            elif any(isinstance(n, ast.Name) and n.id == name and isinstance(n.ctx, ast.Store) for n in ast.walk(t)):
+                out.append(None)
+    elif node.kind in ("iter", "with_enter"):
+        out.append(None)
+    for x in node.walk():
+        if isinstance(x, ast.NamedExpr) and x.target.id == name:
+            out.append(x.value)
+    return out
+
+
+def _feeds(node, name: str) -> int:
+    """How many times CFG node `node` hands the object bound to `name` to code that may feed it: `name` as a call
+    argument, or `name.update(...)`."""
+    k = 0
+    for c in node.walk():
+        if not isinstance(c, ast.Call):
+            continue
+        if isinstance(c.func, ast.Attribute) and c.func.attr == "update" and isinstance(c.func.value, ast.Name) and c.func.value.id == name:
+            k += 1
+        k += sum(1 for a in [*c.args, *(kw.value for kw in c.keywords)] if isinstance(a, ast.Name) and a.id == name)
+    return k
+
+
+def _in_comprehension(c, stmt) -> bool:
+    n = parent(c)
+    while n is not None and n is not stmt:
+        if isinstance(n, _COMP):
+            return True
+        n = parent(n)
+    return False
+
+
+def _fresh_hash(p, f, call, arg):
+    """(ok, why): the hash object `arg` handed to an accumulating function at `call` is created for this one call."""
+    if arg is None:
+        return False, "relies on the callee's default hash object, which is evaluated once and shared by all calls"
+    if _is_hash_ctor(p, f, arg):
+        return True, ""
+    if not isinstance(arg, ast.Name):
+        return False, f"`{unparse(arg)}` is not a hash object created for this call"
+    X = arg.id
+    g = f.cfg
+    st = enclosing_stmt(call)
+    if _in_comprehension(call, st):
+        return False, f"`{X}` is shared by every element of the comprehension"
+    cids = g.node_containing(call)
+    if not cids:
+        return False, f"call site of `{unparse(call)[:50]}` is not in the CFG"
+    binders = assign_nodes(g, X)
+    for cid in cids:
+        defs = reaching(f, X, cid)
+        if "param" in defs or not defs:
+            return False, f"`{X}` is not created in {f.name} (parameter / module level / attribute object shared between calls)"
+        for d in defs:
+            vals = _bound_values(g.nodes[d], X)
+            if not vals or not all(v is not None and _is_hash_ctor(p, f, v.value if isinstance(v, ast.Await) else v) for v in vals):
+                return False, f"`{X}` ({g.nodes[d].text(50)}) is not a newly created hash object"
+            if g.path(cid, [cid], avoid=binders) is not None:
+                return False, (f"`{X}` is created once ({g.nodes[d].text(60)}) outside the loop and fed again on every iteration: hashlib objects "
+                               "accumulate, so every file after the first gets the digest of the concatenation of the files before it")
+        if _feeds(g.nodes[cid], X) > 1:
+            return False, f"`{X}` is fed more than once in `{g.nodes[cid].text(60)}`"
+        live = g.reach(defs, avoid=binders)
+        for u in live:
+            if u != cid and u not in binders and _feeds(g.nodes[u], X) and (cid in g.reach([u], avoid=binders) or u in g.reach([cid], avoid=binders)):
+                return False, f"`{X}` is also fed by `{g.nodes[u].text(60)}`: the digest covers more than this file"
+    return True, ""
+
+
+def r4(ctx):
+    p = ctx.prog
+    accs = _accumulators(p)
+    ctx.require(bool(accs), "C34.R4: no function feeding a caller-supplied hash object (`_file_checksum`) found in run_crate")
+    sites = 0
+    for acc, idx, pname in accs:
+        for cf, c in p.callers(acc.qualname):
+            sites += 1
+            arg = c.args[idx] if len(c.args) > idx and not any(isinstance(a, ast.Starred) for a in c.args) else None
+            for kw in c.keywords:
+                if kw.arg == pname:
+                    arg = kw.value
+            ok, why = _fresh_hash(p, cf, c, arg)
+            ctx.ob("R4", f"{cf.name}: {acc.name}(...) gets a hash object created for this file", ok, func=cf, node=c, instance=f"hasher:{acc.name}:{norm(cf, c.args[0]) if c.args else '?'}",
+                   message=f"{cf.name}: `{unparse(c)[:90]}`: {why}: the recorded sha1 / @id / archive name does not match the file's content")
+    ctx.require(sites >= 4, f"C34.R4: only {sites} call sites of {[a.name for a, _, _ in accs]} found")
+
+
+# --------------------------------------------------------------------------- R5
+
+
+_BOOL_CALLS = {"isinstance", "issubclass", "hasattr", "callable", "any", "all"}
+
+
+def _truth_leaves(e):
+    if isinstance(e, ast.BoolOp):
+        for v in e.values:
+            yield from _truth_leaves(v)
+    elif isinstance(e, ast.UnaryOp) and isinstance(e.op, ast.Not):
+        yield from _truth_leaves(e.operand)
+    elif isinstance(e, ast.Call) and isinstance(e.func, ast.Name) and e.func.id == "bool" and len(e.args) == 1:
+        yield from _truth_leaves(e.args[0])
+    else:
+        yield e
+
+
+def _token_params(p, f):
+    out = set()
+    for a in f.params:
+        q = p.ann_to_class(f.module, f.param_annotation(a))
+        if q and q.rpartition(".")[2].endswith("Token"):
+            out.add(a)
+    return out
+
+
+def _raw_value(p, f, e, at: int, depth: int = 4) -> bool:
+    """`e`, evaluated at CFG node `at`, *is* the plain value of a token: `get_token_value(...)`, `<token param>.value`,
+    or a local bound to one of those."""
+    while isinstance(e, (ast.Await, ast.NamedExpr)):
+        e = e.value
+    if isinstance(e, ast.Call):
+        return any(q.rpartition(".")[2] == "get_token_value" for q in p.resolve_call(f, e, fanout=False))
+    if isinstance(e, ast.Attribute):
+        return e.attr == "value" and isinstance(e.value, ast.Name) and e.value.id in _token_params(p, f)
+    if isinstance(e, ast.Name) and depth > 0:
+        g = f.cfg
+        for x in g.nodes[at].walk():  # bound earlier in the same test: `(v := ...) is not None and v`
+            if isinstance(x, ast.NamedExpr) and x.target.id == e.id and x.value is not e and _raw_value(p, f, x.value, at, depth - 1):
+                return True
+        for d in reaching(f, e.id, at):
+            if d == "param":
+                continue
+            for v in _bound_values(g.nodes[d], e.id):
+                if v is not None and _raw_value(p, f, v, d, depth - 1):
+                    return True
+    return False
+
+
+def _is_none(e) -> bool:
+    return e is None or (isinstance(e, ast.Constant) and e.value is None)
+
+
+def _return_kinds(g):
+    """{node id: {'none','value'}} for the nodes that end the function normally."""
+    kinds: dict[int, set[str]] = {}
+    for n in g.nodes.values():
+        if n.kind == "return":
+            v = n.ast.value
+            if _is_none(v):
+                kinds[n.id] = {"none"}
+            elif isinstance(v, ast.IfExp) and (_is_none(v.body) or _is_none(v.orelse)):
+                kinds[n.id] = {"none", "value"}
+            else:
+                kinds[n.id] = {"value"}
+    for a, ss in g.succ.items():
+        if g.nodes[a].kind not in ("return", "entry") and any(b == g.exit and k in ("n", "t", "f") for b, k in ss):
+            kinds.setdefault(a, set()).add("none")  # falls off the end
+    return kinds
+
+
+def _deciding_tests(f):
+    """[(CFG node id, test expression)]: branch points one side of which can only end in `return None` / only in a
+    returned entity while the other side can end differently."""
+    g = f.cfg
+    kinds = _return_kinds(g)
+    if not any("none" in k for k in kinds.values()) or not any("value" in k for k in kinds.values()):
+        return []
+    out = []
+    for n in g.nodes.values():
+        if n.kind == "test" and not (isinstance(parent(n.ast), ast.Match)):
+            sides = {}
+            for b, k in g.succ[n.id]:
+                if k in ("t", "f"):
+                    ks = set()
+                    for r in g.reach([b], include_src=True):
+                        ks |= kinds.get(r, set())
+                    sides.setdefault(k, set()).update(ks)
+            if len(sides) == 2 and sides["t"] != sides["f"]:
+                out.append((n.id, n.ast))
+        elif n.kind == "return" and isinstance(n.ast.value, ast.IfExp) and (_is_none(n.ast.value.body) != _is_none(n.ast.value.orelse)):
+            out.append((n.id, n.ast.value.test))
+    return out
+
+
+def r5(ctx):
+    p = ctx.prog
+    impls = [f for f in p.overrides(BASE, "get_property_value") if not f.is_abstract]
+    ctx.require(bool(impls), "C34.R5: no concrete get_property_value implementation found")
+    funcs = list(impls)
+    for f in _methods(p):
+        if f not in funcs and not f.is_abstract and any(isinstance(r, ast.Return) and _is_none(r.value) for r in f.body_nodes()):
+            funcs.append(f)
+    for f in funcs:
+        for nid, test in _deciding_tests(f):
+            bad = [lf for lf in _truth_leaves(test) if not isinstance(lf, (ast.Compare, ast.Constant))
+                   and not (isinstance(lf, ast.Call) and isinstance(lf.func, ast.Name) and lf.func.id in _BOOL_CALLS)
+                   and _raw_value(p, f, lf, nid)]
+            ctx.ob("R5", f"{f.name}: `{unparse(test)[:60]}` does not decide 'no value' by truthiness", not bad, func=f, node=test, instance=f"value-test:{unparse(test)}",
+                   message=(f"{f.name}: `{unparse(test)[:80]}` chooses between building the value entity and `return None` by the truthiness of the token value "
+                            f"`{unparse(bad[0])[:60] if bad else ''}`: 0, false, '' and [] are values of the run but get no entity (only `is None` means 'no value')"))
+
+
+# --------------------------------------------------------------------------- R6
+
+
+def _run_loops(f):
+    """For loops of f over the exported runs (`self.workflows`, possibly through enumerate): [(For, {target names}, element name, index name)]."""
+    out = []
+    for n in f.body_nodes():
+        if isinstance(n, (ast.For, ast.AsyncFor)) and any(_is_self_attr(x, "workflows") for x in ast.walk(n.iter)):
+            tg = {x.id for x in ast.walk(n.target) if isinstance(x, ast.Name)}
+            elem = idx = None
+            it = n.iter
+            if _is_self_attr(it, "workflows") and isinstance(n.target, ast.Name):
+                elem = n.target.id
+            elif isinstance(it, ast.Call) and unparse(it.func) == "enumerate" and it.args and _is_self_attr(it.args[0], "workflows") \
+                    and isinstance(n.target, ast.Tuple) and len(n.target.elts) == 2 and all(isinstance(e, ast.Name) for e in n.target.elts):
+                idx, elem = n.target.elts[0].id, n.target.elts[1].id
+            out.append((n, tg, elem, idx))
+    return out
+
+
+def _scoped(n, x: str) -> bool:
+    """The Name `n` (= x) is bound by an enclosing comprehension / lambda / nested def, not by the function's own scope."""
+    a = parent(n)
+    while a is not None and not isinstance(a, ast.stmt):
+        if isinstance(a, (ast.ListComp, ast.SetComp, ast.DictComp, ast.GeneratorExp)):
+            if any(isinstance(t, ast.Name) and t.id == x for gen in a.generators for t in ast.walk(gen.target)):
+                return True
+        elif isinstance(a, ast.Lambda) and any(arg.arg == x for arg in [*a.args.posonlyargs, *a.args.args, *a.args.kwonlyargs]):
+            return True
+        a = parent(a)
+    return False
+
+
+def _within(node, stmts) -> bool:
+    return any(node is x for s in stmts for x in ast.walk(s))
+
+
+def _per_run_hooks(p):
+    """Methods of the provenance classes with a parameter annotated `Workflow`: they process one exported run."""
+    out = {}
+    for m in _methods(p):
+        for a in m.params:
+            q = p.ann_to_class(m.module, m.param_annotation(a))
+            if q and q.rpartition(".")[2] == "Workflow" and "cwl_utils" not in q:
+                out.setdefault(m.name, (m, a))
+    return out
+
+
+def r6(ctx):
+    p = ctx.prog
+    hooks = _per_run_hooks(p)
+    ctx.require(bool(hooks), "C34.R6: no per-run method (parameter annotated Workflow) found in the provenance classes")
+    called = {h: 0 for h in hooks}
+    for f in _methods(p):
+        sites = [c for c in f.calls() if isinstance(c.func, ast.Attribute) and c.func.attr in hooks and isinstance(c.func.value, ast.Name) and c.func.value.id == "self"]
+        loops = _run_loops(f) if sites else []
+        g = f.cfg if sites else None
+        for c in sites:
+            hook, wparam = hooks[c.func.attr]
+            called[hook.name] += 1
+            hp = [a for a in hook.params if a != "self"]
+            args = {hp[i]: a for i, a in enumerate(c.args) if i < len(hp) and not isinstance(a, ast.Starred)}
+            args.update({kw.arg: kw.value for kw in c.keywords if kw.arg})
+            encl = [(L, tg, elem, idx) for L, tg, elem, idx in loops if _within(c, L.body)]
+            ok, why = True, ""
+            if not encl:
+                ok, why = False, ("is not inside the loop over self.workflows: it runs once, with whatever the loop variables hold after the last iteration"
+                                  if loops else "is not inside a loop over self.workflows")
+            else:
+                L, tg, elem, idx = encl[-1]
+                w = args.get(wparam)
+                we = expand(f, w) if w is not None else None
+                if we is None:
+                    ok, why = False, f"does not pass `{wparam}`"
+                elif not ((isinstance(we, ast.Name) and we.id == (elem or we.id) and we.id in tg)
+                          or (isinstance(we, ast.Subscript) and _is_self_attr(we.value, "workflows") and _names(we.slice) and _names(we.slice) <= tg)):
+                    ok, why = False, f"passes `{unparse(w)}` as `{wparam}`, which is not the workflow of the current iteration"
+                for a in hp:
+                    if ok and a != wparam and a in args and not (_names(expand(f, args[a])) & tg):
+                        ok, why = False, f"passes `{unparse(args[a])}` as `{a}`, which does not depend on the current iteration"
+                if ok:
+                    cids = set(g.node_containing(c))
+                    for t in g.ids_of(L):
+                        for b, k in g.succ[t]:
+                            if k == "t" and b not in cids:
+                                w2 = g.path(b, [t, g.exit], avoid=cids)
+                                if w2 is not None:
+                                    ok, why = False, f"is skipped on some iterations ({' -> '.join(g.describe(w2)[:4])})"
+            ctx.ob("R6", f"{f.name}: self.{hook.name}(...) runs for every exported workflow", ok, func=f, node=c, instance=f"per-run:{hook.name}",
+                   message=f"{f.name}: `{unparse(c)[:80]}` {why}: the values of the other runs exported in the same crate are not represented")
+    for h, n in called.items():
+        if not hooks[h][0].is_abstract and not any(m.is_abstract for m in p.overrides(BASE, h)):
+            continue
+        ctx.ob("R6", f"per-run hook {h} is called by the export", n > 0, func=p.func(f"{BASE}.create_archive"), instance=f"per-run-called:{h}",
+               message=f"the abstract per-run hook `{h}` is never called by the provenance classes: what it contributes (initial inputs) is missing from the crate")
+    # loop variables do not leak out of their loop
+    nloops = 0
+    for f in _methods(p):
+        fors = [n for n in f.body_nodes() if isinstance(n, (ast.For, ast.AsyncFor))]
+        if not fors:
+            continue
+        g = f.cfg
+        for L in fors:
+            if any(isinstance(x, ast.Break) for s in L.body for x in ast.walk(s)):
+                continue  # search idiom: the variable deliberately survives the loop
+            nloops += 1
+            body = {id(x) for s in [*L.body, L.target] for x in ast.walk(s)}
+            leaks = []
+            for t in g.ids_of(L):
+                for x in sorted({n.id for n in ast.walk(L.target) if isinstance(n, ast.Name)}):
+                    binders = set(assign_nodes(g, x))
+                    outs = [b for b, k in g.succ[t] if k == "f" and b not in binders]
+                    for u in g.reach(outs, avoid=binders, include_src=True):
+                        for n in g.nodes[u].walk():
+                            if isinstance(n, ast.Name) and n.id == x and isinstance(n.ctx, ast.Load) and id(n) not in body and not _scoped(n, x):
+                                leaks.append((x, u))
+            ctx.ob("R6", f"{f.name}: targets of `for {unparse(L.target)} in {unparse(L.iter)[:40]}` are not read after the loop", not leaks, func=f, node=L,
+                   instance=f"loop-leak:{unparse(L.iter)}",
+                   message=(f"{f.name}: `{leaks[0][0] if leaks else ''}` is read by `{g.nodes[leaks[0][1]].text(70) if leaks else ''}` after "
+                            f"`for {unparse(L.target)} in {unparse(L.iter)[:50]}` has finished: the statement runs once, for the last element only"))
+    ctx.require(nloops >= 20, f"C34.R6: only {nloops} loops examined")
+
+
+RULES = [("R1", r1), ("R2", r2), ("R3", r3), ("R4", r4), ("R5", r5), ("R6", r6)]
+FLOORS = {"R1": 30, "R2": 5, "R3": 1, "R4": 4, "R5": 3, "R6": 20}
 
 _PFT = f"{CWL}._process_file_token"
 _CA = f"{BASE}.create_archive"
+_LD = f"{BASE}._list_dir"
+_GPV = f"{CWL}.get_property_value"
+_HN = "hashlib.new('sha1', usedforsecurity=False)"
+# normalised text of _list_dir's loop up to the checksum call (seeded change C34-1 hoists the hash object out of it)
+_LD_LOOP = (
+    "for element in dir_content:\n"
+    "            element_path = os.path.join(path, element)\n"
+    "            if os.path.isdir(element_path):\n"
+    "                jsonld_object = {'@type': 'Dataset'}\n"
+    "                if (inner_has_part := (await self._list_dir(element_path, jsonld_map))):\n"
+    "                    jsonld_object['hasPart'] = inner_has_part\n"
+    "                    jsonld_object['@id'] = _checksum(''.join(sorted([part['@id'] for part in inner_has_part])))\n"
+    "                    jsonld_object['alternateName'] = os.path.basename(element_path)\n"
+    "                else:\n"
+    "                    jsonld_object['@id'] = os.path.basename(element_path)\n"
+    "            else:\n"
+    "                checksum = _file_checksum(element_path, "
+)
+# normalised text of the "command inputs and outputs" part of create_archive's per-run loop (seeded change C34-3 moves the
+# add_initial_inputs call from before it to after the loop)
+_CA_IO = (
+    "        for step_name in self.step_map:\n"
+    "            if (step := workflow.steps.get(step_name)):\n"
+    "                for port_name, port in step.get_input_ports().items():\n"
+    "                    if (jsonld_port := self.input_port_map.get(posixpath.join(step_name, port_name))):\n"
+    "                        if (property_values := (await self._get_property_values(port_name, port, jsonld_port, step_name))):\n"
+    "                            self._update_actions(wf_id=wf_id, property_values=property_values, step_name=step_name, is_input=True)\n"
+    "                for port_name, port in step.get_output_ports().items():\n"
+    "                    if (jsonld_port := self.output_port_map.get(posixpath.join(step_name, port_name))):\n"
+    "                        if (property_values := (await self._get_property_values(port_name, port, jsonld_port, step_name))):\n"
+    "                            self._update_actions(wf_id=wf_id, property_values=property_values, step_name=step_name, is_input=False)\n"
+)
+_AII = "await self.add_initial_inputs(wf_id, workflow)\n"
+_GTV = "elif (value := get_token_value(token)) is not None:"
 
 VARIANTS = [
     # ---- breaking
@@ -366,7 +796,7 @@ VARIANTS = [
     V("add_file: @id assignment dropped", FILE, f"{BASE}.add_file", "jsonld_file['@id'] = dst\n", "pass\n", "R1"),
     V("add_file: dst rebound between @id and store", FILE, f"{BASE}.add_file", "jsonld_file['@id'] = dst\n", "jsonld_file['@id'] = dst\n            dst = posixpath.basename(dst)\n", "R1"),
     V("@id changed after filing", FILE, f"{CWL}._get_step", "self.graph[work_example['@id']] = work_example", "self.graph[work_example['@id']] = work_example\n    work_example['@id'] = step_name", "R1"),
-    V("@graph exports the keys", FILE, _CA, "'@graph': list(self.graph.values())", "'@graph': list(self.graph.keys())", "R1", control=True),
+    V("@graph exports the keys", FILE, _CA, "'@graph': list(self.graph.values())", "'@graph': list(self.graph.keys())", "R1"),
     V("@graph filtered", FILE, _CA, "'@graph': list(self.graph.values())", "'@graph': [v for v in self.graph.values() if '@type' in v]", "R1"),
     V("initial entry under a foreign key", FILE, BASE, "'ro-crate-metadata.json': {'@id': 'ro-crate-metadata.json',", "'ro-crate-metadata.json': {'@id': 'ro-crate-metadata.jsonld',", "R1"),
     V("metadata dumped from another dict", FILE, _CA, "f.write(json.dumps(metadata, indent=4, sort_keys=True).encode('utf-8'))", "f.write(json.dumps(self.graph, indent=4, sort_keys=True).encode('utf-8'))", "R1"),
@@ -379,8 +809,39 @@ VARIANTS = [
     V("_rename_parts no longer registers parts", FILE, f"{BASE}._rename_parts", "self.files_map[path] = part['@id']", "pass", "R2"),
     V("directory listing not handed to _rename_parts", FILE, _PFT, "dataset['hasPart'] = self._rename_parts(has_part, jsonld_map, dataset['@id'], dataset['alternateName'])",
       "dataset['hasPart'] = has_part", "R2"),
-    V("archive.write arguments swapped", FILE, _CA, "archive.write(src, dst)", "archive.write(dst, src)", "R3", control=True),
+    V("archive.write arguments swapped", FILE, _CA, "archive.write(src, dst)", "archive.write(dst, src)", "R3"),
     V("archive loop over the keys only", FILE, _CA, "for src, dst in self.files_map.items():", "for src, dst in zip(self.files_map, self.files_map):", "R3"),
+    # R4 (seeded change C34-1 and siblings)
+    V("_list_dir: one sha1 object for all the files of a directory (seeded C34-1)", FILE, _LD, _LD_LOOP + _HN + ")",
+      "sha1_checksum = " + _HN + "\n        " + _LD_LOOP + "sha1_checksum)", "R4", control=True),
+    V("_list_dir: hash object kept on the instance", FILE, _LD, "_file_checksum(element_path, " + _HN + ")", "_file_checksum(element_path, self.sha1)", "R4"),
+    V("_list_dir: hash object cached in a shared mapping", FILE, _LD, "_file_checksum(element_path, " + _HN + ")",
+      "_file_checksum(element_path, jsonld_map.setdefault('#sha1', " + _HN + "))", "R4"),
+    V("_list_dir: hash object is a parameter shared by the recursive calls", FILE, _LD, "_file_checksum(element_path, " + _HN + ")", "_file_checksum(element_path, jsonld_map)", "R4"),
+    V("create_archive: config hashed with an object that was already fed", FILE, _CA, "config_checksum = _file_checksum(config, " + _HN + ")",
+      "hasher = " + _HN + "\n        hasher.update(outdir.encode('utf-8'))\n        config_checksum = _file_checksum(config, hasher)", "R4"),
+    V("get_main_entity: module level hash object", FILE, f"{CWL}.get_main_entity", "_file_checksum(path, " + _HN + ")", "_file_checksum(path, _SHA1)", "R4",
+      append="_SHA1 = hashlib.new('sha1', usedforsecurity=False)"),
+    # R5 (seeded change C34-2 and siblings)
+    V("get_property_value: truthiness instead of `is not None` (seeded C34-2)", FILE, _GPV, _GTV, "elif (value := get_token_value(token)):", "R5"),
+    V("get_property_value: `is not None and value`", FILE, _GPV, _GTV, "elif (value := get_token_value(token)) is not None and value:", "R5"),
+    V("get_property_value: bool() of the value", FILE, _GPV, _GTV, "elif bool((value := get_token_value(token))):", "R5"),
+    V("get_property_value: early `if not raw: return None`", FILE, _GPV, "if isinstance(token, ListToken):",
+      "raw = get_token_value(token)\n    if not raw:\n        return None\n    if isinstance(token, ListToken):", "R5"),
+    V("get_property_value: conditional expression on the value", FILE, _GPV,
+      _GTV + "\n        return {'@id': '#' + str(uuid.uuid4()), '@type': 'PropertyValue', 'name': name, 'value': str(value)}",
+      "else:\n        value = get_token_value(token)\n        return {'@id': '#' + str(uuid.uuid4()), '@type': 'PropertyValue', 'name': name, 'value': str(value)} if value else None\n"
+      "    if token is None:\n        pass", "R5"),
+    # R6 (seeded change C34-3 and siblings)
+    V("create_archive: add_initial_inputs moved behind the per-run loop (seeded C34-3)", FILE, _CA, "        " + _AII + _CA_IO, _CA_IO + "    " + _AII, "R6", control=True),
+    V("create_archive: add_initial_inputs before the loop for the first run only", FILE, _CA,
+      "    for wf_id, workflow in enumerate(self.workflows):\n        wf_obj =", "    await self.add_initial_inputs(0, self.workflows[0])\n    for wf_id, workflow in enumerate(self.workflows):\n        wf_obj =", "R6"),
+    V("create_archive: add_initial_inputs only for the first run", FILE, _CA, "        " + _AII, "        if wf_id == 0:\n            " + _AII, "R6"),
+    V("create_archive: add_initial_inputs always with the first workflow", FILE, _CA, _AII, "await self.add_initial_inputs(wf_id, self.workflows[0])\n", "R6"),
+    V("create_archive: add_initial_inputs with a constant run index", FILE, _CA, _AII, "await self.add_initial_inputs(0, workflow)\n", "R6"),
+    V("create_archive: add_initial_inputs dropped", FILE, _CA, "        " + _AII, "        pass\n", "R6"),
+    V("create_archive: output values of the last run only (loop variable read after the loop)", FILE, _CA, "    for file in additional_files or []:",
+      "    logger.info(f'exported {wf_id + 1} runs of {workflow.name}')\n    for file in additional_files or []:", "R6"),
     # ---- benign
     V("benign: @id built into a local first", FILE, _PFT,
       "self.files_map[token_value['path']] = token_value['checksum'][5:]\n            self.graph[token_value['checksum'][5:]] = {'@id': token_value['checksum'][5:],",
@@ -392,4 +853,19 @@ VARIANTS = [
     V("benign: @graph through a local", FILE, _CA, "metadata = {'@context'", "entities = list(self.graph.values())\n    metadata = {'@context'", None),
     V("benign: logging in _rename_parts", FILE, f"{BASE}._rename_parts", "self.files_map[path] = part['@id']", "logger.debug(path)\n        self.files_map[path] = part['@id']", None),
     V("benign: files_map value read back from the entity", FILE, _CA, "self.files_map[config] = config_checksum", "self.files_map[config] = config_file['@id']", None),
+    V("benign: hash object built into a local right before the call", FILE, _LD, "checksum = _file_checksum(element_path, " + _HN + ")",
+      "file_hash = " + _HN + "\n                checksum = _file_checksum(element_path, file_hash)", None),
+    V("benign: hash object local created at the top of the loop body", FILE, _LD, "element_path = os.path.join(path, element)\n",
+      "element_path = os.path.join(path, element)\n            unused_hash = " + _HN + "\n            logger.debug(unused_hash.name)\n", None),
+    V("benign: hash object passed by keyword", FILE, _LD, "_file_checksum(element_path, " + _HN + ")", "_file_checksum(element_path, hash_function=" + _HN + ")", None),
+    V("benign: hashlib.sha1 constructor", FILE, _LD, "_file_checksum(element_path, " + _HN + ")", "_file_checksum(element_path, hashlib.sha1(usedforsecurity=False))", None),
+    V("benign: `!= None` / negated `is None` value test", FILE, _GPV, _GTV, "elif not (value := get_token_value(token)) is None:", None),
+    V("benign: value fetched before the None test", FILE, _GPV, "if isinstance(token, ListToken):",
+      "raw = get_token_value(token)\n    if raw is None and (not isinstance(token, (ListToken, FileToken, ObjectToken))):\n        return None\n    if isinstance(token, ListToken):", None),
+    V("benign: truthiness of a non-value in a deciding test", FILE, _GPV, _GTV, "elif name and (value := get_token_value(token)) is not None:", None),
+    V("benign: add_initial_inputs earlier in the per-run loop, keyword arguments", FILE, _CA,
+      "        " + _AII + _CA_IO, "        current = workflow\n        position = wf_id\n        await self.add_initial_inputs(workflow=current, wf_id=position)\n" + _CA_IO, None),
+    V("benign: add_initial_inputs at the end of the per-run loop", FILE, _CA, "        " + _AII + _CA_IO, _CA_IO + "        " + _AII, None),
+    V("benign: loop over the runs by index", FILE, _CA, "for wf_id, workflow in enumerate(self.workflows):\n",
+      "for wf_id in range(len(self.workflows)):\n        workflow = self.workflows[wf_id]\n", None),
 ]
